@@ -34,7 +34,7 @@ pub fn defs() -> Vec<PropDef> {
             run: |c| run_wire(c, Which::C02),
             replay: |c, v| replay_wire(c, v, Which::C02),
             post: post_wire,
-            rule: "ENUM enumeration of the wire space W0-W6 and of the reveal space (C13's: every value of the decrypted original-length field x attribute types x block counts, where the observer is the panic/abort of reveal's internal SliceReader); every wire case is decoded through four contract-checking implementations of the public Reader trait (slice-backed and owning, each with both behaviours for a bytes() overrun) and through SliceReader; every request is checked against the remaining length and results are compared across readers. Non-trivial: at least one unchecked read / skip / sub-range request was issued beyond the flag word.",
+            rule: "ENUM enumeration of the wire space W0-W6 and of the reveal space (C13's: every value of the decrypted original-length field x attribute types x block counts, where the observer is the panic/abort of reveal's internal SliceReader); every wire case is decoded through five contract-checking implementations (slice-backed, owning with buffers wiped on release, position shared behind an Rc) of the public Reader trait (slice-backed and owning, each with both behaviours for a bytes() overrun) and through SliceReader; every request is checked against the remaining length and results are compared across readers. Non-trivial: at least one unchecked read / skip / sub-range request was issued beyond the flag word.",
             bounds: wire_bounds,
             assumptions: COMMON_ASSUMPTIONS,
             fd_monitor: false,
@@ -599,7 +599,7 @@ fn c02(ctx: &mut Ctx, _family: &'static str, entry: Entry, opts: Option<u8>, byt
     let base = r0.as_ref().unwrap();
     for (k, r, o) in &outs[1..] {
         let out = r.as_ref().unwrap();
-        let same_overrun_mode = matches!((k0, k), (ReaderKind::R2a, ReaderKind::R3a) | (ReaderKind::R2a, ReaderKind::Slice));
+        let same_overrun_mode = matches!((k0, k), (ReaderKind::R2a, ReaderKind::R3a) | (ReaderKind::R2a, ReaderKind::Slice) | (ReaderKind::R2a, ReaderKind::R4));
         let accepted = matches!(base, Out::Msg(Ok(_)));
         if out != base || ((same_overrun_mode || accepted) && o.remaining != o0.remaining) {
             let sig = format!("C02 reader-divergence {} {:?}-vs-{:?}", entry_str(entry), k0, k);
